@@ -10,7 +10,7 @@ PROP = "C04"
 
 def body():
     S.store_check(
-        PROP, model_cfgs=["StoreC04.cfg", "StoreDup.cfg", "StoreL1.cfg", "StoreGer.cfg"], gen_cfgs=["StoreGenC04.cfg", "StoreGenDup.cfg", "StoreGenL1C04.cfg", "StoreGenGerC04.cfg"], quick_n=400, thorough_n=8000,
+        PROP, model_cfgs=["StoreC04.cfg", "StoreDup.cfg", "StoreL1.cfg", "StoreGer.cfg"], gen_cfgs=["StoreGenC04.cfg", "StoreGenDup.cfg", "StoreGenC14.cfg", "StoreGenL1C04.cfg", "StoreGenGerC04.cfg"], quick_n=400, thorough_n=8000,
         kinds_note="bridge, l1info, injected-GER", invs=["RootsMirror", "ConsecutiveIdx", "BlocksIncrease", "ProofsVerify"],
         assumptions=["the twin store (fresh DB fed only the surviving history) is a cross-check for listings that the monitor does not model (paged queries, token mappings); the oracle for roots, proofs, leaves and bridges is the history itself"])
 
